@@ -428,7 +428,7 @@ func (fg *FuncGen) storeLoc(st *State, l *Loc, v string) {
 // embedded struct / array fields of heap objects get their own reference
 func (fg *FuncGen) embRef(st types.Type, field int, ref string) string {
 	u := st.Underlying().(*types.Struct)
-	fn := fmt.Sprintf("emb_%s.%s", shortType(st), u.Field(field).Name())
+	fn := fmt.Sprintf("emb_%s.%s", shortType(st), fieldSelName(u, field))
 	fg.enc.declFun(fn, []string{"Int"}, "Int")
 	fg.enc.declFun(fn+"_inv", []string{"Int"}, "Int")
 	fg.enc.declFun("embkind", []string{"Int"}, "Int")
@@ -690,7 +690,7 @@ func (fg *FuncGen) instrMods(in ssa.Instruction, ms *modSet) {
 			if fg.g.traced[cl.name] {
 				ms.ghosts["$seq"] = true
 				for k := range fg.ghostSort {
-					for _, p := range []string{"$calls:", "$callarg:", "$callseq:", "$callres:", "$callobs:", "$callfn:"} {
+					for _, p := range []string{"$calls:", "$callarg:", "$callseq:", "$callres:", "$callobs:", "$callfn:", "$cw:", "$cw2:"} {
 						if k == p+cl.name || strings.HasPrefix(k, p+cl.name+":") {
 							ms.ghosts[k] = true
 						}
@@ -1258,6 +1258,20 @@ func (fg *FuncGen) preregisterTraces() {
 			}
 			for j, t := range ats {
 				fg.ghostSort[fmt.Sprintf("$callarg:%s:%d", cl.name, j)] = fmt.Sprintf("(Array Int %s)", fg.enc.sortOf(t))
+				// calledwith(F, j, v) / calledwith(F, i, v, j, w): the set of values (pairs of values) some call passed
+				if !fg.g.cwUsed[cl.name] {
+					continue
+				}
+				cw := fmt.Sprintf("$cw:%s:%d", cl.name, j)
+				fg.ghostSort[cw] = fmt.Sprintf("(Array %s Bool)", fg.enc.sortOf(t))
+				fg.ghostInits[cw] = fmt.Sprintf("((as const (Array %s Bool)) false)", fg.enc.sortOf(t))
+				for j2, t2 := range ats {
+					if j2 > j {
+						cw2 := fmt.Sprintf("$cw2:%s:%d:%d", cl.name, j, j2)
+						fg.ghostSort[cw2] = fmt.Sprintf("(Array %s (Array %s Bool))", fg.enc.sortOf(t), fg.enc.sortOf(t2))
+						fg.ghostInits[cw2] = fmt.Sprintf("((as const (Array %s (Array %s Bool))) ((as const (Array %s Bool)) false))", fg.enc.sortOf(t), fg.enc.sortOf(t2), fg.enc.sortOf(t2))
+					}
+				}
 			}
 			if cl.ct != nil {
 				for _, ob := range cl.ct.Observes {
